@@ -138,6 +138,36 @@ func (r *Report) Add(v *Violation) {
 
 func (r *Report) Count() int { return len(r.order) }
 
+// Export writes the violations and the coverage map of a sub-check to path (used when one check is
+// composed of two engines: the second engine runs as a subprocess and the first one merges).
+func (r *Report) Export(path string, cov map[string]interface{}) error {
+	var vs []*Violation
+	for _, s := range r.order {
+		vs = append(vs, r.viol[s][0])
+	}
+	b, _ := json.Marshal(map[string]interface{}{"violations": vs, "coverage": cov})
+	return os.WriteFile(path, b, 0o644)
+}
+
+// Import merges an exported sub-report and returns its coverage map.
+func (r *Report) Import(path string) (map[string]interface{}, error) {
+	b, err := os.ReadFile(path)
+	if err != nil {
+		return nil, err
+	}
+	var x struct {
+		Violations []*Violation           `json:"violations"`
+		Coverage   map[string]interface{} `json:"coverage"`
+	}
+	if err := json.Unmarshal(b, &x); err != nil {
+		return nil, err
+	}
+	for _, v := range x.Violations {
+		r.Add(v)
+	}
+	return x.Coverage, nil
+}
+
 // Finish writes the evidence file, prints the interface lines and returns the exit code.
 func (r *Report) Finish(cov map[string]interface{}, assumptions []string) int {
 	findings := LoadFindings()
